@@ -487,7 +487,7 @@ func init() {
 			hasFinalErr := len(l) > 0 && l[len(l)-1].t == errType
 			variants := []string{"nil"}
 			if hasFinalErr {
-				variants = []string{"nil", "nonnil"}
+				variants = []string{"nil", "nonnil", "typednil"}
 			}
 			for _, v := range variants {
 				l, v := l, v
@@ -510,6 +510,11 @@ func init() {
 						switch {
 						case e.t == errType && last:
 							if v == "nonnil" {
+								ret = append(ret, reflect.ValueOf(&finalErr).Elem())
+							} else if v == "typednil" {
+								// a non-nil error interface holding a nil pointer: err != nil
+								var p *myErr
+								finalErr = p
 								ret = append(ret, reflect.ValueOf(&finalErr).Elem())
 							} else {
 								ret = append(ret, reflect.Zero(errType))
@@ -556,7 +561,7 @@ func init() {
 						}
 					}
 					switch {
-					case hasFinalErr && v == "nonnil":
+					case hasFinalErr && (v == "nonnil" || v == "typednil"):
 						if r.Err() != finalErr {
 							add("err", "Err()=%v, want the final error value", r.Err())
 						}
